@@ -16,7 +16,7 @@ func main() {
 		return
 	}
 	ev.Main("C17", "exploration",
-		"Part 1: generated stores of 8-14 blobs (four templates: files/bytes trees, deletions, split directories, decoys; share claims transitive or not, expired/far-expiry/none, deleted, undeleted, foreign authType, search); EVERY request chain via=b1..bk + target with k<=3 over the store's blobs plus one unknown ref is issued with GET and HEAD against the share handler over the live index and over an index re-opened on a copy of its rows (POST/PUT/DELETE and assemble=1 on samples), and compared with a reachability model written from the statement; distinct = (store, chain) with a share claim at the head. Part 2: one child process per generated server configuration x credential-requiring auth mode; every installed prefix x endpoint table x method is requested without credentials (must be refused, leak no canary, change no state) and with credentials (must not be refused for lack of auth); distinct = (configuration, method, path)",
+		"Part 1: generated stores of 8-14 blobs (four templates: files/bytes trees, deletions, split directories, decoys; share claims transitive or not, expired/far-expiry/none, deleted, undeleted, foreign authType, search); EVERY request chain via=b1..bk + target with k<=3 over the store's blobs plus one unknown ref is issued with GET and HEAD against the share handler over the live index and over an index re-opened on a copy of its rows (POST/PUT/DELETE and assemble=1 on samples), and compared with a reachability model written from the statement; distinct = (store, chain) with a share claim at the head. Expiry stores (one file, 10-12 hand-made share claims whose expires lies at/around the Unix epoch, year 0/1, the int32 and int64-nanosecond limits, year 9999, with zone offsets, fractional seconds, lower-case t/z, second 60, non-dates, seeded instants): chains up to 2 via blobs exhaustively under the real clock, then every share under controlled clocks (verif hook on schema's clock) 1 ns and 1 s before and after each expiry instant and under fixed clocks from year 1 to year 10000; distinct = (store, index mode, share, clock). Part 2: one child process per generated server configuration x credential-requiring auth mode; every installed prefix x endpoint table x method is requested without credentials (must be refused, leak no canary, change no state) and with credentials (must not be refused for lack of auth); distinct = (configuration, method, path)",
 		run)
 }
 
